@@ -73,7 +73,7 @@ func (c15) Budget(tier string) runner.Budget {
 
 func (c15) Describe() runner.Description {
 	return runner.Description{
-		Rule:        "each plan: group of n in [3,10] members keyed by the node's DKG code; a real proposed block; the verifier (member 0) runs the real signing party; every other member sends one or more verify messages in a seeded arrival order, some before the proposal is accepted (stored-message replay, which iterates a map): honest (share over this block's hash + beacon share over the previous beacon), or Byzantine: a valid signature over a DIFFERENT hash filed under this block's hash, another member's share under their own id, their own share twice, a share from a non-member id, garbage/identity points, valid block share with invalid beacon share and vice versa; in 40% of the plans the same verifier process has first signed an EARLIER block of the group with all members honest, and a Byzantine member replays its valid share (block or beacon) of that earlier block inside a message naming this block. In half of the plans the messages travel through the processor's party bookkeeping (real OnMessageVerify / loadOrNewSignParty: early messages are parked under the block hash and handed over, in a seeded order, once the party has taken that key), including forged messages that merely NAME another member as signer, a faulty member announcing its own share public key under another member's id before signing as that member, and signer ids longer than 32 bytes; an error raised on the party's error channel counts as the end of the party (the processor tears it down). After every delivery the block-signature and beacon share sets must contain only (member -> that member's valid share for this block hash / previous beacon), at most one per member; once the proposal is accepted and k honest members' messages are in (any order, any Byzantine traffic from at most n-k members interleaved) the party must have finalised within that delivery with a block signature and beacon that verify under the group public key (bounded liveness: 0 further steps). distinct_nontrivial = distinct (n, Byzantine pattern, early/late pattern) triples with at least one Byzantine message.",
+		Rule:        "each plan: group of n in [3,10] members keyed by the node's DKG code; a real proposed block; the verifier (member 0) runs the real signing party; every other member sends one or more verify messages in a seeded arrival order, some before the proposal is accepted (stored-message replay, which iterates a map): honest (share over this block's hash + beacon share over the previous beacon), or Byzantine: a valid signature over a DIFFERENT hash filed under this block's hash, another member's share under their own id, their own share twice, a share from a non-member id, garbage/identity points, valid block share with invalid beacon share and vice versa; in 40% of the plans the same verifier process has first signed an EARLIER block of the group with all members honest, and a Byzantine member replays its valid share (block or beacon) of that earlier block inside a message naming this block. In half of the plans the messages travel through the processor's party bookkeeping (real OnMessageVerify / loadOrNewSignParty: early messages are parked under the block hash and handed over, in a seeded order, once the party has taken that key), including forged messages that merely NAME another member as signer, a faulty member announcing its own share public key under another member's id before signing as that member, signer ids longer than 32 bytes, and a burst of 11-16 distinct junk messages from one faulty member parked before the proposal is accepted; an error raised on the party's error channel counts as the end of the party (the processor tears it down). After every delivery the block-signature and beacon share sets must contain only (member -> that member's valid share for this block hash / previous beacon), at most one per member; once the proposal is accepted and k honest members' messages are in (any order, any Byzantine traffic from at most n-k members interleaved) the party must have finalised within that delivery with a block signature and beacon that verify under the group public key (bounded liveness: 0 further steps). distinct_nontrivial = distinct (n, Byzantine pattern, early/late pattern) triples with at least one Byzantine message.",
 		Assumptions: []string{"round0's own acceptance checks (castor key, VRF, group selection, time window) are not part of C15: the party is positioned after them by an in-package driver", "at most n-k members are Byzantine when liveness is asserted; set-content checks hold for any number"},
 		Real:        []string{"consensus/logical SignParty, round1 (share collection), round2 (finalizer), stored-message replay", "consensus/net verify-message decoder", "consensus/groupsig (verify, recover)", "group_create.GetMemberSignPubKey + access.JoinedGroupStorage on the node's store", "core chain (GenerateBlock, AddBlockOnChain) of a booted node"},
 		Stub:        []string{"other group members (scripted)", "consensus network server (recording fake)", "ConsensusHelper of the chain"},
@@ -124,6 +124,28 @@ func (c15) Gen(seed uint64, tier string) json.RawMessage {
 		m := msgs[i]
 		m.Early = r.Chance(pEarly)
 		p.Msgs = append(p.Msgs, m)
+	}
+	if len(byz) > 0 && r.Chance(0.12) {
+		// one faulty member floods the verifier with distinct junk messages for this block BEFORE the proposal
+		// is accepted (they are parked under the block hash), then the others' shares arrive, early too
+		jb := 0
+		for j := 1; j < p.N; j++ {
+			if byz[j] {
+				jb = j
+				break
+			}
+		}
+		var burst []c15Msg
+		for i, c := 0, r.Range(11, 16); i < c; i++ {
+			burst = append(burst, c15Msg{From: jb, Kind: "garbage", Arg: 3000 + 3*i + 1, Early: true})
+		}
+		for i := range p.Msgs {
+			if p.Msgs[i].Kind == "honest" && r.Chance(0.8) {
+				p.Msgs[i].Early = true
+			}
+		}
+		p.Msgs = append(burst, p.Msgs...)
+		p.Proc, p.ProcSeed = true, r.U64()
 	}
 	b, _ := json.Marshal(p)
 	return b
